@@ -9,8 +9,10 @@ from mc.models.xdm import AXES
 TESTS_FULL = [('name', 'a'), ('name', 'b'), ('*',), ('node',), ('text',), ('comment',), ('pi', None), ('pi', 't')]
 TESTS_RED = [('name', 'a'), ('*',), ('node',), ('text',)]
 PREDS_FULL = [(), (('pos', 1),), (('pos', 2),), (('last',),), (('child', 'b'),), (('attr', 'id'),),
-              (('posgt', 1),), (('notchild', 'b'),)]
-PREDS_RED = [(), (('pos', 1),), (('last',),)]
+              (('posgt', 1),), (('notchild', 'b'),),
+              # chained predicates: the second one counts positions among the survivors of the first, in axis order
+              (('posgt', 1), ('pos', 1)), (('posgt', 1), ('last',)), (('attr', 'id'), ('pos', 1)), (('pos', 2), ('pos', 1))]
+PREDS_RED = [(), (('pos', 1),), (('last',),), (('posgt', 1), ('pos', 1))]
 PREFIXES = ['', '/', '//']
 SEPS = ['/', '//']
 
